@@ -7,6 +7,8 @@ package main
 // exactly these calls in each branch is the generated fact checked in Oblig/C05.lean.
 
 import (
+	"fmt"
+	"encoding/hex"
 	"context"
 	"errors"
 	"math/big"
@@ -25,6 +27,9 @@ import (
 	subListenerR "github.com/ChainSafe/sygma-relayer/chains/substrate/listener"
 	"github.com/ChainSafe/sygma-relayer/keyshare"
 	"github.com/btcsuite/btcd/btcjson"
+	"github.com/btcsuite/btcd/chaincfg"
+	"github.com/btcsuite/btcd/btcutil"
+	btcConfig "github.com/ChainSafe/sygma-relayer/chains/btc/config"
 	"github.com/btcsuite/btcd/chaincfg/chainhash"
 	relayerStore "github.com/ChainSafe/sygma-relayer/store"
 	"github.com/centrifuge/go-substrate-rpc-client/v4/registry"
@@ -247,6 +252,11 @@ func (c c05SubConn) FetchEvents(s, e *big.Int) ([]*parser.Event, error) {
 	if c.failAt == "events" {
 		return nil, errRPC
 	}
+	if c.failAt == "badretry" { // a retry event whose fields cannot be decoded (runtime upgrade changed the layout)
+		return []*parser.Event{{Name: "SygmaBridge.Retry", Fields: registry.DecodedFields{
+			&registry.DecodedField{Name: "deposit_on_block_height", Value: "not-a-number"},
+			&registry.DecodedField{Name: "dest_domain_id", Value: types.NewU8(2)}}}}, nil
+	}
 	return []*parser.Event{
 		{Name: "SygmaBridge.Retry", Fields: registry.DecodedFields{
 			&registry.DecodedField{Name: "deposit_on_block_height", Value: types.NewU128(*big.NewInt(7))},
@@ -287,6 +297,18 @@ func c05HangWait() time.Duration {
 	}
 	return 10 * time.Second
 }
+
+// c05BtcBlockConn serves one block with the given transactions
+type c05BtcBlockConn struct{ txs []btcjson.TxRawResult }
+
+func (c *c05BtcBlockConn) GetRawTransactionVerbose(*chainhash.Hash) (*btcjson.TxRawResult, error) {
+	return nil, errors.New("unused")
+}
+func (c *c05BtcBlockConn) GetBlockHash(int64) (*chainhash.Hash, error) { return &chainhash.Hash{}, nil }
+func (c *c05BtcBlockConn) GetBlockVerboseTx(*chainhash.Hash) (*btcjson.GetBlockVerboseTxResult, error) {
+	return &btcjson.GetBlockVerboseTxResult{Tx: c.txs}, nil
+}
+func (c *c05BtcBlockConn) GetBestBlockHash() (*chainhash.Hash, error) { return &chainhash.Hash{}, nil }
 
 // ---- fakes for evmdeposits
 type c05Matcher struct{}
@@ -415,6 +437,85 @@ func init() {
 			}
 			feh, fl, fch := mk()
 			if f := call(feh, fl, fch, i, spec); f != r {
+				r += "!" + f
+			}
+			out = append(out, r)
+		}
+		return strings.Join(out, ";")
+	}
+	// btcdeposits <blocks>   blocks '/'-separated, each a ','-separated list of transactions in block order:
+	//   g (well-formed deposit) | e (deposit whose OP_RETURN data the deposit handler rejects with an error) |
+	//   p (deposit without OP_RETURN data: the handler panics, recovered per transaction) | n (not a deposit); '-' = empty
+	//   => per block `ok:<messages forwarded>` | `err`, ';'-separated. ONE real FungibleTransferEventHandler + the real
+	//   BtcDepositHandler serve the sequence; a block is also handled by a fresh handler (`<long-lived>!<fresh>` on a difference).
+	ops["C05.btcdeposits"] = func(a []string) string {
+		key := make([]byte, 32)
+		key[0] = 7
+		raddr, err := btcutil.NewAddressTaproot(key, &chaincfg.RegressionNetParams)
+		if err != nil {
+			panic(err)
+		}
+		key[0] = 9
+		faddr, _ := btcutil.NewAddressTaproot(key, &chaincfg.RegressionNetParams)
+		mkTx := func(i int, kind string) btcjson.TxRawResult {
+			tx := btcjson.TxRawResult{Hash: fmt.Sprintf("%064x", i+1), Txid: fmt.Sprintf("%064x", i+1), Blocktime: 1000}
+			opret := func(payload string) btcjson.Vout {
+				return btcjson.Vout{ScriptPubKey: btcjson.ScriptPubKeyResult{Type: btcListener.OP_RETURN,
+					Hex: hex.EncodeToString(append([]byte{0x6a, byte(len(payload))}, []byte(payload)...))}}
+			}
+			pay := []btcjson.Vout{
+				{Value: 1, ScriptPubKey: btcjson.ScriptPubKeyResult{Type: btcListener.WitnessV1Taproot, Address: raddr.String()}},
+				{Value: 1, ScriptPubKey: btcjson.ScriptPubKeyResult{Type: btcListener.WitnessV1Taproot, Address: faddr.String()}}}
+			switch kind {
+			case "g":
+				tx.Vout = append([]btcjson.Vout{opret("0x1c5541A79AcC662ab2D2647F3B141a3B7Cdb2Ae4_2")}, pay...)
+			case "e":
+				tx.Vout = append([]btcjson.Vout{opret("0x1c5541A79AcC662ab2D2647F3B141a3B7Cdb2Ae4_x")}, pay...)
+			case "p":
+				tx.Vout = pay
+			default:
+				tx.Vout = []btcjson.Vout{{Value: 1, ScriptPubKey: btcjson.ScriptPubKeyResult{Type: "witness_v0_keyhash", Address: "bcrt1qxyz"}}}
+			}
+			return tx
+		}
+		mk := func() (*btcListener.FungibleTransferEventHandler, *c05BtcBlockConn, chan []*message.Message) {
+			conn := &c05BtcBlockConn{}
+			ch := make(chan []*message.Message, 64)
+			rid := [32]byte{1}
+			res := map[[32]byte]btcConfig.Resource{rid: {Address: raddr, ResourceID: rid, FeeAmount: big.NewInt(1000)}}
+			return btcListener.NewFungibleTransferEventHandler(zerolog.Context{}, 1, &btcListener.BtcDepositHandler{}, ch, conn, res, faddr), conn, ch
+		}
+		call := func(h *btcListener.FungibleTransferEventHandler, conn *c05BtcBlockConn, ch chan []*message.Message, i int, spec string) string {
+			conn.txs = nil
+			for j, k := range items(spec, ",") {
+				conn.txs = append(conn.txs, mkTx(100*i+j, k))
+			}
+			if err := h.HandleEvents(big.NewInt(int64(100 + i))); err != nil {
+				return "err"
+			}
+			want, n := strings.Count(spec, "g"), 0
+			deadline := time.After(5 * time.Second)
+			for n < want {
+				select {
+				case ms := <-ch:
+					n += len(ms)
+				case <-deadline:
+					return "ok:" + itoa(n)
+				}
+			}
+			select { // anything beyond what is expected
+			case ms := <-ch:
+				n += len(ms)
+			case <-time.After(2 * time.Millisecond):
+			}
+			return "ok:" + itoa(n)
+		}
+		h, conn, ch := mk()
+		out := []string{}
+		for i, spec := range strings.Split(a[0], "/") {
+			r := call(h, conn, ch, i, spec)
+			fh, fconn, fch := mk()
+			if f := call(fh, fconn, fch, i, spec); f != r {
 				r += "!" + f
 			}
 			out = append(out, r)
@@ -553,8 +654,30 @@ func genC05(g *G) {
 			g.Emit("hfetch", h, f)
 		}
 	}
+	g.Emit("hfetch", "subretry", "badretry") // no read fails: an event that can never be decoded must not block the range
 	for _, f := range []string{"-", "hash", "block", "nilblock"} {
 		g.Emit("hfetch", "btcdeposit", f)
+	}
+	// BTC blocks with well-formed, rejected, panicking and foreign transactions in every order
+	ba := []string{"g", "e", "p", "n"}
+	for _, x := range ba {
+		for _, y := range ba {
+			g.Emit("btcdeposits", x+","+y+"/g")
+			for _, z := range ba {
+				g.Emit("btcdeposits", x+","+y+","+z)
+			}
+		}
+	}
+	for i := 0; i < g.Count(40, 1000); i++ {
+		bs := []string{}
+		for j := 0; j < 1+g.Intn(4); j++ {
+			ts := []string{}
+			for k := 0; k < g.Intn(5); k++ {
+				ts = append(ts, g.Pick([]string{"g", "g", "e", "p", "n"}))
+			}
+			bs = append(bs, joinOr(ts, ","))
+		}
+		g.Emit("btcdeposits", strings.Join(bs, "/"))
 	}
 	// one deposit-handler object over a sequence of ranges with resolvable and unresolvable deposits
 	alpha := []string{"-", "r", "u", "m", "r,r", "u,r", "r,u", "m,r", "u,u", "r,u,r"}
